@@ -710,6 +710,31 @@ def build(E):
     M["core::str::traits::<impl std::ops::Index<I> for str>::index"] = index_model("str")
     M["core::slice::index::<impl std::ops::IndexMut<I> for [T]>::index_mut"] = index_model("slice")
 
+    def split_at_model(kind):
+        """s.split_at(mid) panics like &s[..mid] / &s[mid..]: same obligations; the tail is logged like a RangeFrom slice (progress rule)"""
+        def m(F, bi, st, t, args):
+            v = lenval(F, st, args[0])
+            mid = F.as_int(E.expand(args[1][0]), args[1][1])
+            lo_len = v[1] if v else 0
+            hi_len = v[2] if v else MAXLEN
+            elem = v[3] if v else UNK
+            desc = "split_at(%s,%s)" % (F.d_op(t["args"][0]), F.d_op(t["args"][1]))
+            ok = mid is not None and mid[1] >= 0 and mid[2] <= lo_len
+            detail = "mid in %s, length >= %d" % ("[%d, %d]" % (mid[1], mid[2]) if mid else "?", lo_len)
+            okind = "bounds" if kind != "str" else "str-index"
+            if kind == "str" and ok and not (mid[1] == mid[2] == 0):
+                okind, ok = "str-boundary", False
+                detail = "offset is within the string, but the char boundary is not established by the interval domain; " + detail
+            F.oblige(bi, okind, desc, t["ln"], ok, detail)
+            if mid is not None:
+                E.index_log.setdefault((F.fpath, t["ln"], kind), []).append((mid[1], mid[2]))
+            head = ("l", mid[1] if mid else 0, min(mid[2], hi_len) if mid else hi_len, elem)
+            tail = ("l", max(lo_len - (mid[2] if mid else lo_len), 0), max(hi_len - (mid[1] if mid else 0), 0), elem)
+            return ("s", (("r", ("val", head)), ("r", ("val", tail))))
+        return m
+    M["core::str::<impl str>::split_at"] = split_at_model("str")
+    M["core::slice::<impl [T]>::split_at"] = split_at_model("slice")
+
     def first_last(F, bi, st, t, args):
         v = lenval(F, st, args[0])
         if v is None:
